@@ -58,6 +58,8 @@ void w_gset_raw(uint64_t nulltable, uint64_t numFields, uint8_t* pdu, uint64_t f
 #define W_TLS
 #endif
 W_TLS unsigned long w_ev;
+unsigned long w_pm;           /* 1: the thunks call the library through the parenthesised function name */
+void w_set_callmode(uint64_t m) { w_pm = (unsigned long)m; }
 unsigned long w_ev_bad;
 const char* w_ev_name;
 uint64_t w_ev_mismatches(void) { return w_ev_bad; }
